@@ -334,7 +334,17 @@ pub fn to_yaml(r: &mut Rng, top: &TopCfg, i: &IntfCfg) -> String {
     if body.is_empty() {
         s = s.replace("  eth0:\n", "  eth0:\n    managed: false\n");
     }
-    s + &body
+    let doc = s + &body;
+    // The keys of a YAML mapping have no order: in half of the documents the router-advertisements block stands BEFORE the
+    // top-level defaults it falls back on.
+    if r.bool() {
+        if let Some(pos) = doc.find("router-advertisements:\n") {
+            let head = &doc[4..pos];
+            let ra = &doc[pos..];
+            return format!("---\n{}{}", ra, head);
+        }
+    }
+    doc
 }
 
 const SELF6: &str = "2001:db8:aaaa::1";
